@@ -1,4 +1,5 @@
 import CapyV.Model.Comptime
+import CapyV.Model.ComptimeWiden
 import CapyV.Driver.TyCodec
 /-! Line protocol for C04 (trusted glue). -/
 namespace CapyV.Driver
@@ -30,6 +31,18 @@ def c04IdOf (t : Ty) : Nat :=
 `rt <pw> <r0> <r1> <f0> <buf-hex> <cstr-hex> <ty>` → `path=… code=… global=… block=…` -/
 def c04 (args : List String) : String :=
   match args with
+  -- `widen <signed 0|1> <fromBits> <toBits> <raw value>` → what a load of the wider global yields
+  | ["widen", sg, f, t, v] =>
+    match sg.toNat?, f.toNat?, t.toNat?, v.toNat? with
+    | some sg, some f, some t, some v =>
+      let bs := widenIntBytes .little (sg == 1) f t (encode .little (f / 8) (v % 2 ^ f))
+      s!"scalar:{t}:{loadBits .little t (bs ++ [0xAA, 0xBB, 0xCC, 0xDD, 0xEE, 0xFF, 0x11, 0x22])}"
+    | _, _, _, _ => "bad-op"
+  -- `widenf <f32 bit pattern>` → the f64 bit pattern stored for an `f64` global
+  | ["widenf", v] =>
+    match v.toNat? with
+    | some v => s!"scalar:64:{loadBits .little 64 (widenFloatBytes hostFloatConv .little (encode .little 4 v) ++ [0xAA])}"
+    | none => "bad-op"
   | "accept" :: rest =>
     match parseTy (" ".intercalate rest) with
     | some t =>
